@@ -427,7 +427,9 @@ func runC17(c *core.Ctx) {
 							return
 						}
 						// the application derives the index from the request: a long common prefix, then the path
-						tr.RelayStateFunc = func(_ http.ResponseWriter, r *http.Request) string { return ix + "." + strings.ReplaceAll(r.URL.Path, "/", ".") }
+						tr.RelayStateFunc = func(_ http.ResponseWriter, r *http.Request) string {
+							return ix + "." + strings.ReplaceAll(r.URL.Path, "/", ".")
+						}
 						w.m.RequestTracker = tr
 					}
 					if strings.Contains(u, "#") {
